@@ -218,16 +218,31 @@ def finish(prop, tier, seed, t0, outs, *, level="other", explanation, functions,
     unreplayed = []
     # groups that no known finding explains are replayed first (never starved by the cap)
     violations.sort(key=lambda cb: match_known(known, cb[0], cb[1]["obligation"]) is not None)
+    known_groups = {}      # finding id -> groups chosen for replay
+    skipped_known = []
     for case, b in violations:
         k = (case, b["obligation"])
         count[k] = count.get(k, 0) + 1
         if count[k] > 3:
             continue
-        if count[k] == 1 and len(count) > 12:
-            unreplayed.append(k)
-            continue
-        if k in unreplayed:
-            continue
+        e = match_known(known, case, b["obligation"])
+        if e is not None:
+            # a known finding is re-confirmed on at most 2 groups per run; further groups
+            # that it explains are listed, not replayed
+            g = known_groups.setdefault(e.get("id", e.get("what")), [])
+            if k not in g:
+                if len(g) >= 2:
+                    if k not in skipped_known:
+                        skipped_known.append(k)
+                    continue
+                g.append(k)
+        else:
+            n_unknown = len({kk for kk in count if match_known(known, kk[0], kk[1]) is None})
+            if count[k] == 1 and n_unknown > 12:
+                unreplayed.append(k)
+                continue
+            if k in unreplayed:
+                continue
         payload = {"property": prop, "case": case, "case_kw": case_kw.get(case),
                    "obligation": b["obligation"], "model": b["model"], "detail": b["detail"]}
         todo.append((case, b, write_replay(prop, payload)))
@@ -291,6 +306,7 @@ def finish(prop, tier, seed, t0, outs, *, level="other", explanation, functions,
         "known_findings_hit": known_hits,
         "violations_reported": reported,
         "counterexamples_not_replayed": [f"{c}/{o}" for c, o in unreplayed][:30],
+        "explained_by_known_finding_not_replayed": [f"{c}/{o}" for c, o in skipped_known][:60],
         "inconclusive": [f"{c}: {m}" for c, m in inconclusive][:20],
         "harness_errors": [f"{c}: {m[-800:]}" for c, m in errors][:10],
         "solver": "z3 %s (python API), fresh solver per query" % _z3_version(),
